@@ -239,6 +239,21 @@ M("c05-release-keeps-clr", "C05", "release reports a NULL callback when priv is 
   (MH, "    if (clr != NULL) {", "    if (clr != NULL && priv != NULL) {"))
 M("c05-share-same-block", "C05", "share into a pointer that already owns the same block skips the reset but still increments",
   (MM, "    cstl_shared_ptr_reset(n);\n    cstl_guarded_ptr_copy(&n->data, &e->data);", "    if (cstl_guarded_ptr_get_const(&n->data) != cstl_guarded_ptr_get_const(&e->data)) {\n        cstl_shared_ptr_reset(n);\n    }\n    cstl_guarded_ptr_copy(&n->data, &e->data);"))
+# ----------------------------------------------------------------- C06
+M("c06-no-spinlock", "C06", "spin lock removed from weak_ptr_lock",
+  (MM, "        while (atomic_flag_test_and_set(&data->ref.lock)) {\n            sched_yield(); // GCOV_EXCL_LINE\n        }\n", ""))
+M("c06-flag-never-cleared", "C06", "atomic_flag_clear removed",
+  (MM, "        atomic_flag_clear(&data->ref.lock);\n    }\n}", "    }\n}"))
+M("c06-soft-before-hard", "C06", "reset drops the reference before the owner count",
+  (MM, "    if (data != NULL) {\n        if (atomic_fetch_sub(&data->ref.hard, 1) == 1) {\n            cstl_unique_ptr_reset(&data->up);\n        }\n\n        /*\n         * manage the shared data structure via the\n         * weak pointer code; it's the same handling\n         */\n        cstl_weak_ptr_reset(sp);\n    }",
+   "    if (data != NULL) {\n        const int last = atomic_load(&data->ref.soft) == 1;\n        if (!last) { atomic_fetch_sub(&data->ref.soft, 1); }\n        if (atomic_fetch_sub(&data->ref.hard, 1) == 1) {\n            cstl_unique_ptr_reset(&data->up);\n        }\n        cstl_guarded_ptr_set(&sp->data, NULL);\n        if (last) { free(data); }\n    }"))
+M("c06-check-then-inc", "C06", "lock checks the owner count with a load, then increments (no lock needed?)",
+  (MM, "        if (atomic_fetch_add(&data->ref.hard, 1) > 0) {", "        if (atomic_load(&data->ref.hard) > 0 && atomic_fetch_add(&data->ref.hard, 1) >= 0) {"))
+M("c06-share-hard-late", "C06", "share increments the reference count first and the owner count only after re-reading the pointer (window with soft>hard is fine) -> owner increment skipped when the count is 1",
+  (MM, "        atomic_fetch_add(&data->ref.hard, 1);\n        atomic_fetch_add(&data->ref.soft, 1);\n    }\n}\n\nvoid cstl_shared_ptr_reset",
+   "        atomic_fetch_add(&data->ref.soft, 1);\n        if (atomic_load(&data->ref.hard) != 1 || atomic_load(&data->ref.soft) < 4) { atomic_fetch_add(&data->ref.hard, 1); }\n    }\n}\n\nvoid cstl_shared_ptr_reset"))
+M("c06-unlock-early", "C06", "lock releases the flag before undoing a failed increment",
+  (MM, "            /* the memory wasn't live, put the counter back */\n            atomic_fetch_sub(&data->ref.hard, 1);", "            /* the memory wasn't live, put the counter back */\n            atomic_flag_clear(&data->ref.lock);\n            atomic_fetch_sub(&data->ref.hard, 1);"))
 # ----------------------------------------------------------------- C14
 AR = "src/array.c"
 M("c14-at-no-offset", "C14", "at ignores the view offset",
